@@ -172,7 +172,7 @@ def _mk_sign(orthogonal, what):
     return body
 
 
-def _mk_scale(orthogonal):
+def _mk_scale(orthogonal, names=None):
     def body(env):
         k = env.real("k", lo=1.5, hi=8)
         if env.mode == "sym":
@@ -184,6 +184,8 @@ def _mk_scale(orthogonal):
             return
         env.witness("both_evaluated")
         for n, e in K_EXP.items():
+            if names is not None and n not in names:
+                continue
             a, b = c02.G(r1, n, "centre", (0, 0)), c02.G(r2, n, "centre", (0, 0))
             env.claim_eq("%s_scales_as_k^%d" % (n, e), b, a * (k ** e if e >= 0 else 1 / k ** (-e)))
     return body
@@ -205,9 +207,17 @@ for _o in (True, False):
         OBLIGATIONS.append(Ob("metric_%s_%s" % (_w, "orth" if _o else "nonorth"), _mk_sign(_o, _w), tier="quick", family="field reversal",
                               encodes=["hypnotoad.core.mesh:MeshRegion.calcMetric", "hypnotoad.core.mesh:MeshRegion.geometry2"],
                               desc="each metric output is invariant or exactly negated according to its tensor character", stubs=["as C02"], bounds="all reals"))
-    OBLIGATIONS.append(Ob("metric_psi_divide_twopi_%s" % ("orth" if _o else "nonorth"), _mk_scale(_o), tier="quick" if _o else "thorough", wall_s=240 if _o else 3000, family="field reversal",
-                          encodes=["hypnotoad.core.mesh:MeshRegion.calcMetric", "hypnotoad.core.mesh:MeshRegion.geometry2"],
-                          desc="homogeneous outputs scale with the documented power of k when psi -> psi/k", stubs=["as C02"], bounds="k in [1.5, 8]"))
+    if _o:
+        OBLIGATIONS.append(Ob("metric_psi_divide_twopi_orth", _mk_scale(True), tier="quick", wall_s=240, family="field reversal",
+                              encodes=["hypnotoad.core.mesh:MeshRegion.calcMetric", "hypnotoad.core.mesh:MeshRegion.geometry2"],
+                              desc="homogeneous outputs scale with the documented power of k when psi -> psi/k", stubs=["as C02"], bounds="k in [1.5, 8]"))
+    else:
+        # one obligation per output: each rational-function identity of the non-orthogonal branch costs minutes of normal-form arithmetic, and
+        # obligations (not claims) are what runs in parallel
+        for _n in K_EXP:
+            OBLIGATIONS.append(Ob("metric_psi_divide_twopi_nonorth_" + _n, _mk_scale(False, names=(_n,)), tier="thorough", wall_s=2400, family="field reversal",
+                                  encodes=["hypnotoad.core.mesh:MeshRegion.calcMetric", "hypnotoad.core.mesh:MeshRegion.geometry2"],
+                                  desc="%s scales with the documented power of k when psi -> psi/k (non-orthogonal branch)" % _n, stubs=["as C02"], bounds="k in [1.5, 8]"))
 
 import harness.c03 as _c03  # noqa: E402
 for _rc in (0, 1):
